@@ -204,6 +204,61 @@ example : eval [] (.fn "upper" .argNil) [strVal "a1-z{".toList] = .ok [strVal "A
 
 end Case
 
+/-! ### `join([separator])` (experimental table) in the assembled evaluator -/
+
+section Join
+open FP.Model.Eval
+
+/-- `join('')` / `join()` is concatenation -/
+theorem joinBytes_nil_delim (l : List (List UInt8)) : joinBytes [] l = l.flatten := by
+  induction l with
+  | nil => rfl
+  | cons x rest ih =>
+    cases rest with
+    | nil => simp [joinBytes]
+    | cons y r => simp [joinBytes, ih]
+
+/-- one item is joined to itself, whatever the separator is -/
+theorem join_single (d x : List UInt8) : joinOn d [.str x] = .ok [.str x] := by
+  simp [joinOn, strBytes?, joinBytes]
+
+/-- an item that is not a String is an error, never skipped and never rendered -/
+theorem join_non_string_is_error (d : List UInt8) (input : List Val) (v : Val) (hv : v ∈ input) (hs : strBytes? v = none) :
+    joinOn d input = .err "not-a-string" := by
+  unfold joinOn
+  cases input with
+  | nil => simp at hv
+  | cons a r =>
+    have : ((a :: r).all fun v => (strBytes? v).isSome) = false := by
+      rw [List.all_eq_false]
+      exact ⟨v, hv, by simp [hs]⟩
+    simp [this]
+
+/-- a non-empty collection of Strings is one String: the texts with the separator between them -/
+theorem join_strings (d : List UInt8) (l : List (List UInt8)) (h : l ≠ []) :
+    joinOn d (l.map .str) = .ok [.str (joinBytes d l)] := by
+  unfold joinOn
+  cases l with
+  | nil => exact absurd rfl h
+  | cons a r =>
+    have h1 : ((Val.str a :: r.map Val.str).all fun v => (strBytes? v).isSome) = true := by
+      simp [strBytes?]
+    have h2 : (Val.str a :: r.map Val.str).filterMap strBytes? = a :: r := by
+      have : ∀ r : List (List UInt8), List.filterMap (strBytes? ∘ Val.str) r = r := by
+        intro r; induction r with
+        | nil => rfl
+        | cons x xs ih => simp [strBytes?, ih]
+      simp [strBytes?, List.filterMap_map, this]
+    simp only [List.map_cons, h1, if_true, h2]
+
+
+/-- `s.toChars().join()` gives the characters back in order (on the character lists of FP.Model.Strings) -/
+theorem toChars_join (s : Str) : (toChars s).flatten = s := toChars_concat s
+
+example : joinOn [44] [.str [97], .str [98], .str []] = .ok [.str [97, 44, 98, 44]] := by decide
+
+end Join
+
 example : substring "héllo".toList 1 (some 1) = some "é".toList := by decide
 example : indexOf "日本語".toList "語".toList = 2 := by decide
 example : replaceAll "abc".toList [] "-".toList = "-a-b-c-".toList := by decide
